@@ -118,6 +118,19 @@ Section Facts.
       destruct (exec_par_ckpt _ _ _ _ _ _ _ _ _ _). exact E.
   Qed.
 
+  (* the instance of transparency at a directory left by a run that died: any history of saves,
+     then the newest checkpoint overwritten with arbitrary bytes / torn at any byte *)
+  Theorem recovers d0 max0 h junk k mode co term chain :
+    let pid := run_pid H mode chain in
+    let left := saves_of readdir max0 d0 h in
+    fst (run_collect sh readdir H avail pct clock mode co
+                     (Some (overwrite_latest readdir pid junk left)) term chain)
+    = run_plain sh mode term chain
+    /\ fst (run_collect sh readdir H avail pct clock mode co
+                        (Some (truncate_latest readdir pid k left)) term chain)
+       = run_plain sh mode term chain.
+  Proof. intros pid left. split; apply run_collect_transparent. Qed.
+
   (* a configuration that is absent or not enabled never touches (or creates) the directory *)
   Theorem run_collect_disabled mode co fs term chain :
     match co with Some c => c_enabled c = false | None => True end ->
